@@ -9,6 +9,14 @@ CHECKS = {
         technique='property-based testing: generated signatures x argument routes, differential oracle (direct call on reference-built arguments)',
         text='Hypothesis-generated Configs over 1176 signature shapes x 7 callable kinds with generated argument routes and nestings; fdl.build is compared with a direct call formed by an independent reference evaluator. Thorough additionally enumerates every shape x {function, class} x every subset of parameters. Held-on-everything-generated, not a proof.',
         note='Trusted: CPython inspect.signature, harness/refmodel.py (form_call, ref_build), harness/canon.py; Hypothesis 6.168 generation.'),
+    'C02': dict(
+        technique='property-based testing: generated DAG recipes with explicit aliasing, invocation-log and identity-relation oracle against a reference evaluator',
+        text='Hypothesis-generated DAGs (diamonds, shared containers, equal-but-distinct copies, TaggedValues in containers, Box nodes whose flatten allocates temporaries, chains to depth 100); after fdl.build the invocation log, the path-wise identity relation, cross-build disjointness and the canonical form against an independent memoizing evaluator are checked. Exploration, not proof; id reuse is provoked, not guaranteed.',
+        note='Trusted: harness/refmodel.ref_build, harness/canon.py, recording callables in harness/vuni.'),
+    'C03': dict(
+        technique='model-based (stateful) property testing: generated edit histories against a Python list/dict reference model, all observations compared after every step',
+        text='Hypothesis draws an initial binding and up to 40 get/set/del operations by name, index, negative index, VARARGS and slice, with operands drawn relative to the evolving model state; after every step every public observation (cfg[:], cfg[i], getattr, ordered_arguments under all 24 flag combinations, dir, storage) must equal ModelArgs and rejected edits must leave them unchanged.',
+        note='Trusted: harness/argmodel.ModelArgs (list semantics over fixed prefix + *args), CPython inspect.signature.'),
 }
 
 PENDING = {}
